@@ -262,4 +262,49 @@ theorem latency_key_search_terminates (l r : Int) (h0 : 0 ≤ l) (hlr : l ≤ r)
 example := latency_key_search_terminates 0 16383 (by decide) (by decide) (by decide)
 example := latency_key_search_terminates 8000 8000 (by decide) (by decide) (by decide)
 
+/-! ### 7. Hash tags co-locate keys -/
+
+private theorem afterFirst_split (c : UInt8) (pre rest : Bytes) (h : ∀ b ∈ pre, b ≠ c) :
+    afterFirst c (pre ++ c :: rest) = some rest := by
+  induction pre with
+  | nil => simp [afterFirst]
+  | cons b bs ih =>
+    have hb : b ≠ c := h b (by simp)
+    simp only [List.cons_append, afterFirst, hb, if_false]
+    exact ih (fun x hx => h x (by simp [hx]))
+
+private theorem beforeFirst_split (c : UInt8) (tag rest : Bytes) (h : ∀ b ∈ tag, b ≠ c) :
+    beforeFirst c (tag ++ c :: rest) = some tag := by
+  induction tag with
+  | nil => simp [beforeFirst]
+  | cons b bs ih =>
+    have hb : b ≠ c := h b (by simp)
+    simp only [List.cons_append, beforeFirst, hb, if_false]
+    rw [ih (fun x hx => h x (by simp [hx]))]; rfl
+
+/-- **hash tags co-locate keys.** A key whose first `{` is followed by a non-empty tag up to the first `}` hashes to the
+    slot of the tag alone, whatever stands before the `{` and after the `}` — so two keys carrying the same tag are always
+    routed to the same slot (what a user relies on when multi-key commands cross the tool). -/
+theorem tagged_key_slot (pre tag suf : Bytes) (hp : ∀ b ∈ pre, b ≠ openBrace) (ht : ∀ b ∈ tag, b ≠ closeBrace)
+    (hne : tag ≠ []) :
+    (keyToSlot (pre ++ openBrace :: (tag ++ closeBrace :: suf))).toNat = (crc16 tag).toNat % slots := by
+  rw [keyToSlot_eq_spec]
+  unfold slotSpec hashedPart hashTag
+  rw [afterFirst_split _ _ _ hp]
+  simp only [beforeFirst_split _ _ _ ht]
+  cases tag with
+  | nil => exact absurd rfl hne
+  | cons a ts => rfl
+
+theorem same_tag_same_slot (pre pre' tag suf suf' : Bytes) (hp : ∀ b ∈ pre, b ≠ openBrace)
+    (hp' : ∀ b ∈ pre', b ≠ openBrace) (ht : ∀ b ∈ tag, b ≠ closeBrace) (hne : tag ≠ []) :
+    keyToSlot (pre ++ openBrace :: (tag ++ closeBrace :: suf)) =
+      keyToSlot (pre' ++ openBrace :: (tag ++ closeBrace :: suf')) := by
+  apply UInt16.toNat_inj.mp
+  rw [tagged_key_slot pre tag suf hp ht hne, tagged_key_slot pre' tag suf' hp' ht hne]
+
+/-- premises satisfiable: `user:{42}:name` and `{42}x` -/
+example : keyToSlot ([117,115,101,114,58] ++ openBrace :: ([52,50] ++ closeBrace :: [58,110])) =
+    keyToSlot ([] ++ openBrace :: ([52,50] ++ closeBrace :: [120])) :=
+  same_tag_same_slot _ _ _ _ _ (by decide) (by decide) (by decide) (by decide)
 end RSVerif.Properties.C15
